@@ -205,9 +205,12 @@ def lowrank_contract(rep, mir, L):
                 if kk != 'ret': bad.append(('adapt panics (k=%d)' % k, str(v)[:100])); continue
                 ev = [e for e in mm.ghost['events'] if e[0] == 'compute_update']
                 if k < 3:
-                    if ev or v is not False: bad.append(('adapt estimates from fewer than three draws', 'k=%d' % k))
-                    continue
-                if len(ev) != 1 or v is not True: bad.append(('adapt with %d draws does not run the estimation once and report a change' % k,)); continue
+                    # fewer draws than the statement's three: whether to estimate already is the implementation's choice; if it does, from the kept window
+                    if not ev:
+                        if v is not False: bad.append(('adapt reports a change without running the estimation', 'k=%d' % k))
+                        continue
+                elif len(ev) != 1 or v is not True: bad.append(('adapt with %d draws does not run the estimation once and report a change' % k,)); continue
+                if len(ev) != 1: bad.append(('adapt runs the estimation more than once', 'k=%d' % k)); continue
                 dm, gm = ev[0][1].f[0], ev[0][2].f[0]
                 if not same(dm, get(before, 'draws')) or not same(gm, get(before, 'grads')): bad.append(('the estimation pipeline does not receive exactly the kept window (draw i / gradient i as column i)', 'k=%d' % k))
     # a new strategy starts with an empty window and no background split; init() records exactly the start point
